@@ -175,8 +175,27 @@ def gen_cases(rng, tier):
 
 
 # ---------------------------------------------------------------- Coq printers
+# Every number that comes from the implementation goes through _n: a value outside [0, 2^64) (a negative or wrapped
+# ordinal / cardinality / count, the -1 "wrong key" marker of the harness) is printed as a sentinel >= 2^64 that no model
+# run produces, and the observation's o_bad bit is set, which the oracle rejects. The term printer is total.
+_BIG = 1 << 64
+_BAD = [False]
+
+
+def _n(x):
+    try:
+        x = int(x)
+    except (TypeError, ValueError):
+        _BAD[0] = True
+        return str(_BIG)
+    if x < 0 or x >= _BIG:
+        _BAD[0] = True
+        return str(_BIG + (abs(x) % 1000003))
+    return str(x)
+
+
 def cq_kv(p):
-    return "(%d,%d)" % (p[0], p[1])
+    return "(%s,%s)" % (_n(p[0]), _n(p[1]))
 
 
 def cq_kvl(l):
@@ -192,15 +211,15 @@ def cq_shape(s):
         return "(Leaf [])"
     if s.get("leaf"):
         return "(Leaf %s)" % cq_kvl(s.get("l") or [])
-    return "(Inner [" + ";".join("(%d,%d,%s)" % (c["k"], c["c"], cq_shape(c["t"])) for c in (s.get("n") or [])) + "])"
+    return "(Inner [" + ";".join("(%s,%s,%s)" % (_n(c["k"]), _n(c["c"]), cq_shape(c["t"])) for c in (s.get("n") or [])) + "])"
 
 
 def cq_on(x):
-    return "None" if x is None else "(Some %d)" % x
+    return "None" if x is None else "(Some %s)" % _n(x)
 
 
 def cq_getp(x):
-    return "None" if not x else "(Some (%d,%d))" % (x[0], x[1])
+    return "None" if not x else "(Some (%s,%s))" % (_n(x[0]), _n(x[1]))
 
 
 def cq_op(o):
@@ -222,6 +241,7 @@ BAD = "(0, 0)"
 
 
 def coq_case(case, out):
+    _BAD[0] = False
     o = out.get("obs")
     pr = "{| p_keys := %s; p_pre := %s; p_rng := %s; p_ord := %s |}" % (
         cq_list(str(k) for k in case["q"]), cq_list(str(a) for a in case["pre"]),
@@ -235,19 +255,19 @@ def coq_case(case, out):
             W, cq_kvl(case["init"]), pr, maxp, ops)
         sr = ("{| s_get := []; s_has := []; s_getp := []; s_hasp := []; s_all := [(0,0);(0,0)]; s_rev := []; s_rng := []; s_card := []; "
               "s_ordrng := []; s_fetch := []; s_ord := []; s_count := 77; s_last := None |}")
-        return "(%s, {| o_s := %s; o_changed := []; o_pend := []; o_stash := []; o_reads := [] |})" % (inp, sr)
+        return "(%s, {| o_s := %s; o_changed := []; o_pend := []; o_stash := []; o_reads := []; o_bad := true |})" % (inp, sr)
     ops = cq_list("(%s, %s)" % (cq_op(x), "None" if f is None else "Some " + cq_shape(f)) for x, f in zip(case["ops"], o["flush"]))
     inp = "{| i_w := %d; i_init := %s; i_tree := %s; i_probes := %s; i_maxp := %d; i_ops := %s |}" % (
         W, cq_kvl(case["init"]), cq_shape(o["tree0"]), pr, maxp, ops)
     s = o["s0"]
     sr = ("{| s_get := %s; s_has := %s; s_getp := %s; s_hasp := %s; s_all := %s; s_rev := %s; s_rng := %s; s_card := %s; "
-          "s_ordrng := %s; s_fetch := %s; s_ord := %s; s_count := %d; s_last := %s |}") % (
+          "s_ordrng := %s; s_fetch := %s; s_ord := %s; s_count := %s; s_last := %s |}") % (
         cq_list(cq_on(x) for x in (s["get"] or [])), cq_list(cq_bool(x) for x in (s["has"] or [])),
         cq_list(cq_getp(x) for x in (s["getp"] or [])), cq_list(cq_bool(x) for x in (s["hasp"] or [])),
         cq_kvl(s["all"]), cq_kvl(s["rev"]), cq_list(cq_okvl(x) for x in (s["rng"] or [])),
-        cq_list(str(x) for x in (s["card"] or [])),
+        cq_list(_n(x) for x in (s["card"] or [])),
         cq_list(cq_okvl(x) for x in (s["ordrng"] or [])), cq_list(cq_okvl(x) for x in (s["fetch"] or [])),
-        cq_list(str(x) for x in (s["ord"] or [])), s["count"], cq_on(s["last"]))
+        cq_list(_n(x) for x in (s["ord"] or [])), _n(s["count"]), cq_on(s["last"]))
     rds = []
     for r in o["reads"]:
         rds.append(("{| r_get := %s; r_has := %s; r_getp := %s; r_hasp := %s; r_all := %s; r_rng := %s; r_krng := %s; r_map := %s; r_edits := %s |}") % (
@@ -255,9 +275,9 @@ def coq_case(case, out):
             cq_list(cq_getp(x) for x in (r["getp"] or [])), cq_list(cq_bool(x) for x in (r["hasp"] or [])),
             cq_kvl(r["all"]), cq_list(cq_kvl(x) for x in (r["rng"] or [])), cq_list(cq_okvl(x) for x in (r["krng"] or [])),
             cq_shape(r["map"]), cq_bool(r["edits"])))
-    ob = "{| o_s := %s; o_changed := %s; o_pend := %s; o_stash := %s; o_reads := %s |}" % (
-        sr, cq_list(cq_bool(f is not None) for f in o["flush"]), cq_list(str(x) for x in o["pend"]),
-        cq_list(cq_bool(x) for x in o["stash"]), cq_list(rds))
+    body = (sr, cq_list(cq_bool(f is not None) for f in o["flush"]), cq_list(_n(x) for x in o["pend"]),
+            cq_list(cq_bool(x) for x in o["stash"]), cq_list(rds))
+    ob = "{| o_s := %s; o_changed := %s; o_pend := %s; o_stash := %s; o_reads := %s; o_bad := %s |}" % (body + (cq_bool(_BAD[0]),))
     return "(%s, %s)" % (inp, ob)
 
 
